@@ -307,8 +307,13 @@ def main(argv):
     # 4. replay unlisted failures natively before reporting
     exit_code = 0
     nviol = 0
-    for r in violations:
-        rp = replay(prop, group, feats, r, caps, logdir)
+    # at most MAX_REPLAYS counterexamples are replayed (in parallel); further failing
+    # harnesses are listed but not reported as separate VIOLATION lines
+    MAX_REPLAYS = 4
+    to_replay, rest = violations[:MAX_REPLAYS], violations[MAX_REPLAYS:]
+    with cf.ThreadPoolExecutor(max_workers=MAX_REPLAYS) as ex:
+        rps = list(ex.map(lambda r: replay(prop, group, feats, r, caps, logdir), to_replay))
+    for r, rp in zip(to_replay, rps):
         r["replay"] = rp
         if rp.get("reproduced"):
             nviol += 1
@@ -319,6 +324,11 @@ def main(argv):
         else:
             print("INCONCLUSIVE property=%s harness=%s: solver counterexample did not reproduce natively (%s)"
                   % (prop, r["name"], rp.get("why", "")))
+            inconclusive.append(r)
+    for r in rest:
+        print("   also failing (not replayed, replay cap %d): harness=%s failed: %s" % (
+            MAX_REPLAYS, r["name"], "; ".join(f["desc"] for f in r["unlisted_failed"][:3])))
+        if exit_code == 0:
             inconclusive.append(r)
     seen = set()
     for r, f, k in known_hits:
